@@ -2,13 +2,26 @@ NOTES = ("All checks explore the implementation itself (CLI tools and library bu
          "finite alphabet/bound and compare every execution with a reference model or invariant; see DESIGN.md. "
          "Known findings are listed by exact input in known/findings.txt.")
 
-CHECKS = {
- "C05": dict(level="model_checking", design_ref="DESIGN.md 4/C05",
-   technique="explicit-state BFS over directive histories on the real assembler, state-hash dedup, reference location-counter model",
-   text="Every history of data/location directives up to the stated depth over the stated alphabet, on six CPU configurations "
-        "(1/2/4/8 bytes per address, both byte orders), is assembled by the real naken_asm and its image, written-address set, labels "
-        "and accept/reject verdict are compared with an independent location-counter model; states are deduplicated on the full observable state.",
-   note="Trusts the Python reference model (engine/ref/directives.py) and the Intel-HEX decoder (engine/ref/formats.py); bounded by alphabet and depth given in the evidence."),
-}
-
+CHECKS = {}
 NOT_YET = {}
+
+CHECKS["C04"] = dict(
+    level="model_checking", design_ref="DESIGN.md 4/C04",
+    technique="exhaustive enumeration of operator sequences / expression trees / literal spellings / single-token mutations, "
+              "each evaluated by the real assembler and compared with a reference evaluator",
+    text="Every flat operator sequence up to length 4 (thorough 5) over all 10 binary operators with three operand vectors, every binary-tree "
+         "shape up to 3 (4) operators over one operator per precedence level with minimal and full parentheses, unary chains to depth 3 at "
+         "every leaf, every operator on every pair of 24 boundary values, every documented literal spelling of 18 boundary values, and every "
+         "single-token deletion/duplication/insertion of 50 seed expressions is evaluated by naken_asm (.dc64) and compared with a reference "
+         "evaluator; expressions without a value must be rejected with a diagnostic and without a signal.",
+    note="Trusts engine/ref/expr.py; >> of negative values, shift counts outside 0..63, -2^63 / -1 and unary + are don't-cares; float "
+         "operands are outside the property.")
+
+CHECKS["C05"] = dict(
+    level="model_checking", design_ref="DESIGN.md 4/C05",
+    technique="explicit-state BFS over directive histories on the real assembler, state-hash dedup, reference location-counter model",
+    text="Every history of data/location directives up to the stated depth over the stated alphabet, on six CPU configurations "
+         "(1/2/4/8 bytes per address, both byte orders), is assembled by the real naken_asm and its image, written-address set, labels "
+         "and accept/reject verdict are compared with an independent location-counter model; states are deduplicated on the full observable state.",
+    note="Trusts the Python reference model (engine/ref/directives.py) and the Intel-HEX decoder (engine/ref/formats.py); bounded by "
+         "alphabet and depth given in the evidence.")
